@@ -918,9 +918,47 @@ def unroll(fn: ast.FunctionDef, repo: Optional[Repo] = None, ci: Optional[ClassI
     return new
 
 
-def normalize(repo: Repo, ci: Optional[ClassInfo], fn: ast.FunctionDef, sf: Optional[SourceFile] = None, **kw) -> ast.FunctionDef:
-    """flatten, then unroll: the form in which rules read a function."""
-    return unroll(flatten(repo, ci, fn, sf, **kw), repo, ci)
+def expand_aliases(fn: ast.FunctionDef) -> ast.FunctionDef:
+    """Copy of `fn` in which a local that abbreviates an attribute chain (`modules = self.object.modules`, bound once,
+    outside loops, the chain not re-assigned in the function) is replaced by the chain."""
+    new = copy.deepcopy(fn)
+    cnt: Dict[str, int] = {}
+    banned: Set[str] = {a.arg for a in new.args.args}
+    stored_chains: Set[str] = set()
+    for n in ast.walk(new):
+        if isinstance(n, ast.Name) and isinstance(n.ctx, (ast.Store, ast.Del)):
+            cnt[n.id] = cnt.get(n.id, 0) + 1
+        if isinstance(n, (ast.For, ast.AsyncFor, ast.comprehension)):
+            for m in ast.walk(n.target):
+                if isinstance(m, ast.Name):
+                    banned.add(m.id)
+        if isinstance(n, ast.Attribute) and isinstance(n.ctx, ast.Store):
+            stored_chains.add(norm(n))
+    alias: Dict[str, ast.expr] = {}
+    for st in new.body:
+        if isinstance(st, ast.Assign) and len(st.targets) == 1 and isinstance(st.targets[0], ast.Name):
+            nm, v = st.targets[0].id, st.value
+            chain = v
+            ok = isinstance(v, ast.Attribute)
+            while isinstance(chain, ast.Attribute):
+                chain = chain.value
+            if ok and isinstance(chain, ast.Name) and cnt.get(nm) == 1 and nm not in banned and norm(v) not in stored_chains \
+                    and (chain.id == "self" or chain.id in {a.arg for a in new.args.args}):
+                alias[nm] = v
+    if not alias:
+        return new
+    new.body = [st for st in new.body if not (isinstance(st, ast.Assign) and len(st.targets) == 1 and isinstance(st.targets[0], ast.Name)
+                                              and st.targets[0].id in alias)]
+    new = _Rename(dict(alias)).visit(new)
+    ast.fix_missing_locations(new)
+    number(new)
+    return new
+
+
+def normalize(repo: Repo, ci: Optional[ClassInfo], fn: ast.FunctionDef, sf: Optional[SourceFile] = None, aliases: bool = False, **kw) -> ast.FunctionDef:
+    """flatten, then unroll (and, on request, expand attribute-chain aliases): the form in which rules read a function."""
+    out = unroll(flatten(repo, ci, fn, sf, **kw), repo, ci)
+    return expand_aliases(out) if aliases else out
 
 
 # ------------------------------------------------------------------------------------ attribution of private helpers
